@@ -16,6 +16,7 @@ class UnmanagedVector
   private:
     T* data_{};
     std::size_t size_{};
+    std::size_t capacity_{};
 
   public:
     UnmanagedVector() = default;
@@ -23,7 +24,9 @@ class UnmanagedVector
     UnmanagedVector(const UnmanagedVector& other) = delete;
 
     constexpr UnmanagedVector(UnmanagedVector&& other) noexcept
-        : data_(std::exchange(other.data_, nullptr)), size_(std::exchange(other.size_, 0))
+        : data_(std::exchange(other.data_, nullptr)),
+          size_(std::exchange(other.size_, 0)),
+          capacity_(std::exchange(other.capacity_, 0))
     {
     }
 
@@ -33,6 +36,7 @@ class UnmanagedVector
     {
         data_ = std::exchange(other.data_, nullptr);
         size_ = std::exchange(other.size_, 0);
+        capacity_ = std::exchange(other.capacity_, 0);
         return *this;
     }
 
@@ -67,6 +71,21 @@ class UnmanagedVector
             std::memcpy(new_mem, data_, size_ * sizeof(T));
         }
         data_ = new_mem;
+        capacity_ = capacity;
+    }
+
+    template <class Allocator>
+    constexpr void deallocate(const Allocator& allocator) noexcept
+    {
+        if (data_)
+        {
+            using Traits = RebindTraits<Allocator, T>;
+            typename Traits::allocator_type alloc(allocator);
+            Traits::deallocate(alloc, data_, capacity_);
+            data_ = nullptr;
+            size_ = 0;
+            capacity_ = 0;
+        }
     }
 };
 }  // namespace cntgs::detail
